@@ -66,6 +66,11 @@ CHECKS = {
          "Histories of the real app with real keep-alive, unjail, stake and governance txs; validator keys are drawn until the operator address has a wanted byte class (0x2c at start/middle/end/twice, 0x00, near-0x2c); keep-alive cadences sit around the 2000-block lifetime, unjail blocks hit the last grace block, a whale moves stake to the exact 25% boundary, block time jumps walk the sentence ladder. At every liveness check the model decides must-be-jailed / must-not-be-jailed from the monitor's own log of accepted keep-alives, unjails and stakes; versions are compared with an independent SemVer implementation; the minimum never decreases. Held = held at those checks.",
          "A validator that never sent a keep-alive must be jailed only once older than the lifetime; the 25% test is order-tolerant within one sweep; jailing inside the grace period is not forbidden by the statement.",
          "DESIGN.md §2 C12"),
+ "C13": ("exploration", "chain+world",
+         "checkpoint-archive monitor with an independent checkpoint encoder and ecrecover + prune-time jailing oracle from the monitor's own evidence record, on real-app histories with replayed genuine confirmations",
+         "Histories of the real app with batches in every stage (built, re-estimated, confirmed, timed out, re-built, executed) and cross-chain messages pruned with 0%, <10%, =10%, 10-66% and split evidence; the monitor archives every checkpoint it ever sees on a stored batch and every genuine confirmation, and any user, validator or the signer itself replays them as bad-signature evidence at any later height (handler calls on forks after every block and real txs): nobody may become jailed for a signature over a checkpoint the chain issued, a signature over a fabricated batch must jail its signer only; at every prune a newly jailed validator must not have supplied evidence and nobody is jailed below 10% of snapshot shares. Held = held on those submissions and prune events.",
+         "The control (a truly bad signature must jail) makes a dead jail path INCONCLUSIVE, not held; compass re-deployment mid-batch not driven.",
+         "DESIGN.md §2 C13"),
  "C14": ("exploration", "chain+world",
          "set-comprehension reference model over snapshot / fee / metrics / trait tables and queue contents read at the same boundary + exact big.Rat fee arithmetic, on real-app histories and what-if forks",
          "Histories of the real app (jobs by accounts and 32-byte contract senders incl. MEV, valset updates, batches, uploads; ties in fees, missing fee/account/metrics records, late pigeons, key rotation, per-chain addresses); after every block every new or re-assigned message and batch must be assigned to a validator that is in the snapshot, has an account on the chain in that snapshot entry (= the signed relayer address), fee and metrics records and the MEV trait when demanded; a failed request leaves nothing queued; for every validator on every chain GetMessagesForRelaying (keeper and gRPC) must return exactly the set the five conditions of the statement define; elected fees must equal ceil(mult*gas), ceil(rate*relayer fee) in exact rationals; the real pick and job execution are also run on forks at five block times. Held = held on those boundaries.",
